@@ -19,15 +19,23 @@ What is proved, and for whom:
   their own writer has not been closed (`C03.never_nil_raw_partial`); on their own closed writer
   they can see it (`C03.never_nil_raw_full_false` – known finding `close-discards-buffered` (i));
 * liveness (`C03.teardown_releases_partial`) is about the requester of a writer that has itself
-  been torn down (closed, or all its readers closed).  A requester *upstream of a node* whose
-  out-writer alone is closed depends on the node's backward loop seeing the drop notices, which
-  the pump may discard: the model's `bwd` does nothing on a closed channel, the upstream writer is
-  not `TornDown`, and no theorem claims its release (known finding, part (ii)).
+  been torn down (closed, or all its readers closed);
+* a requester *upstream of a node* whose out-writer alone is closed (`fix: node backward loops
+  drop what is still pending when their writer's Receive closes`): the node's backward loop, when
+  the channel closes, resolves what its tracer still awaits as `dropped` (`bwd` on the closed
+  channel = `Tracer.Drop`).  `C03.teardown_releases_upstream_partial`: within `buffered + 2`
+  steps of the node's own goroutines nothing the node had taken from its in-reader is left
+  waiting – every such request has been answered upstream, in read order.
+  `C03.teardown_releases_upstream_awaits_partial`: for histories with consistent wiring in which
+  only the node answers on its in-reader, the
+  upstream writer then awaits from that reader only the requests the forward loop has not yet
+  taken (invariant `Upstream`: `pend r = inbox + reads` while `r` is open), and its machine is the
+  image of a C01 specification state whose rows owe `r` exactly those.
 
 `RunNoSteal h`: the requester is the only consumer of its writer's `Receive()` channel (no step
 of `h` is a `steal`).
 -/
-import Uniflow.Proofs.Teardown
+import Uniflow.Proofs.TeardownNode
 
 open Uniflow Uniflow.Writer Uniflow.Teardown Uniflow.TeardownProofs Uniflow.WriterProofs
 
@@ -251,6 +259,7 @@ theorem C03.frame (rule : Pump.Rule) (t : Topo) (s : Sys) (st : Teardown.Step) (
     exact prim_frame rule t s w c x hx
   | fwd w r => exact (step_evolves rule t s (.fwd w r) trivial).2 x hx
   | bwd wo => exact (step_evolves rule t s (.bwd wo) trivial).2 x hx
+  | fwdEnd w r => exact (step_evolves rule t s (.fwdEnd w r) trivial).2 x hx
   | down td => exact (step_evolves rule t s (.down td) trivial).2 x hx
 
 /-- Hence unaffected requesters keep the C01 guarantees: after any system history the writer
@@ -304,54 +313,35 @@ def C03.teardown_releases_full : Prop :=
   ∀ (t : Topo) (h : List Teardown.Step), RunNoSteal h → ∀ w,
     TornDown ((Teardown.run .discard t {} h).comp w) → C03.Releases ((Teardown.run .discard t {} h).comp w)
 
-/-- **Teardown releases** – `_partial`: proved for histories that never re-link a reader which
-still has requests outstanding (`NoRelinkRun`, the class of the C01 known finding
-`relink-with-pending`; the port layer links every reader in `OutPort.Open` before it hands the
-writer out and never unlinks, so every history the ports can produce satisfies it).  Also not
-proved: that steps of *other* threads on the same writer (late answers, `closeR` of an unlinked
-reader, …) never increase `μ` – only (c), that no new response becomes owed.  And it speaks of
-the requester of the torn-down writer itself: a requester upstream of a node whose out-writer
-alone was closed is not covered (known finding `close-discards-buffered` (ii)). -/
-theorem C03.teardown_releases_partial (t : Topo) (h : List Teardown.Step) (hs : RunNoSteal h)
-    (hn : NoRelinkRun .discard t {} h) (w : WId)
+/-- **Teardown releases** – for every history (the hypothesis `NoRelinkRun` of the earlier version
+is gone: since the link generations C01's simulation holds unconditionally, so every reachable
+writer machine is `Backed`).  `_partial` with respect to `C03.teardown_releases_full` read as a
+liveness claim: not proved is that steps of *other* threads on the same writer (late answers,
+`closeR` of an unlinked reader, …) never increase `μ` – only (c), that no new response becomes
+owed – and fairness is an assumption.  It speaks of the requester of the torn-down writer
+itself; for a requester upstream of a node see `C03.teardown_releases_upstream_partial`. -/
+theorem C03.teardown_releases_partial (t : Topo) (h : List Teardown.Step) (hs : RunNoSteal h) (w : WId)
     (ht : TornDown ((Teardown.run .discard t {} h).comp w)) :
     C03.Releases ((Teardown.run .discard t {} h).comp w) := by
   have hi := cinv_reach t h hs w
   have hb : Backed ((Teardown.run .discard t {} h).comp w) :=
-    backed_run .discard t {} h (fun _ => backed_init) hn w
+    backed_run .discard t {} h (fun _ => backed_init) w
   refine ⟨enabled _ hi hb ht, fun ho hen => (recv_decreases _ hi ho hen).1,
     fun hc he => (exit_decreases _ hc he).1,
     fun r hr hnd hd => (drop_decreases _ hi hb r hr hnd hd).1, torn_no_accept _ ht, ?_⟩
   obtain ⟨cs, f, l, o, i⟩ := release (mu ((Teardown.run .discard t {} h).comp w)) _ (Nat.le_refl _) hi hb ht
   exact ⟨cs, f, l, o, got_shape _ i⟩
 
-instance decNoRelinkRun (rule : Pump.Rule) (t : Topo) : (s : Sys) → (h : List Teardown.Step) → Decidable (NoRelinkRun rule t s h)
-  | _, [] => isTrue trivial
-  | s, st :: h =>
-    have := decNoRelinkRun rule t (Teardown.step rule t s st).1 h
-    have : Decidable (stepNoRelink s st) := by
-      cases st with
-      | prim w c =>
-        cases c with
-        | w st' => exact inferInstanceAs (Decidable (relinkPending (s.comp w).w st' = false))
-        | recv => exact isTrue trivial
-        | steal => exact isTrue trivial
-        | pumpExit => exact isTrue trivial
-      | fwd _ _ => exact isTrue trivial
-      | bwd _ => exact isTrue trivial
-      | down _ => exact isTrue trivial
-    inferInstanceAs (Decidable (stepNoRelink s st ∧ NoRelinkRun rule t (Teardown.step rule t s st).1 h))
-
 /-- Non-vacuity: a node between a source writer (0) and a sink; two requests in flight; the
 process exits (sink reader, node out-writer, node in-reader, source writer closed in that order).
-The hypotheses hold, the source writer is torn down with two responses owed. -/
+The source writer is torn down with two responses owed. -/
 theorem C03.teardown_releases_partial_nonvacuous :
     let t : Topo := { consumer := fun w => if w = 1 then .node 0 0 else .requester,
                       listener := fun w _ => if w = 0 then .node 1 else .sink 0,
                       procs := [[.writer 0, .reader 0 0, .writer 1, .reader 1 0]] }
     let h : List Teardown.Step := [.prim 0 (.w (.link 0)), .prim 1 (.w (.link 0)), .prim 0 (.w (.write 7)), .fwd 0 0,
       .prim 0 (.w (.write 8)), .fwd 0 0, .down (.processExit 0)]
-    NoRelinkRun .discard t {} h ∧ ((Teardown.run .discard t {} h).comp 0).w.done = true ∧
+    ((Teardown.run .discard t {} h).comp 0).w.done = true ∧
     ((Teardown.run .discard t {} h).comp 0).outstanding = 2 ∧ mu ((Teardown.run .discard t {} h).comp 0) = 5 := by
   decide
 
@@ -359,7 +349,104 @@ theorem C03.teardown_releases_partial_nonvacuous :
 held-back drop notices (`μ = 2·2 + 0 + 2 + 2 + 1`). -/
 theorem C03.teardown_releases_partial_nonvacuous_reader :
     let h : List Teardown.Step := [.prim 0 (.w (.link 0)), .prim 0 (.w (.write 7)), .prim 0 (.w (.write 8)), .down (.readerClose 0 0)]
-    NoRelinkRun .discard {} {} h ∧ ((Teardown.run .discard {} {} h).comp 0).w.done = false ∧
+    ((Teardown.run .discard {} {} h).comp 0).w.done = false ∧
     ((Teardown.run .discard {} {} h).comp 0).w.closed 0 = true ∧
     ((Teardown.run .discard {} {} h).comp 0).outstanding = 2 ∧ mu ((Teardown.run .discard {} {} h).comp 0) = 9 := by
   decide
+
+/-! ## A requester upstream of a node whose out-writer alone is closed -/
+
+/-- **Teardown releases, through a node** – for every reachable state in which the out-writer
+`wo` of a node (in-reader `r` of writer `wi`) is closed – by `Writer.Close`, `OutPort.Close`, a
+process exit – whatever else is or is not closed: some sequence of at most `buffered + 2` steps
+of the node's own goroutines (backward-loop iterations `bwd wo`; the writer pump returning) ends
+with nothing the node had taken from its in-reader left waiting.  Every such request has then
+been answered upstream (`answer r a` on `wi`, in the order the node read them): with the
+response the backward loop still received, or – `Tracer.Drop`, when the channel closed on it –
+with `dropped`.  The steps are enabled one after the other (fairness of those two goroutines is
+the assumption, as in `C03.Releases`).
+
+`_partial` with respect to the property: the theorem ends at the node's `answer` calls; that
+each of them completes the upstream row of the request it belongs to, so that the requester of
+`wi` is handed its packet, is `C01.pending_backed_partial` / `C02.node_contract` (an answer of an
+open, linked reader with a request outstanding is credited to its oldest outstanding request),
+not re-proved for the relay model. -/
+theorem C03.teardown_releases_upstream_partial (t : Topo) (h : List Teardown.Step) (hs : RunNoSteal h)
+    (wo wi : WId) (r : RId) (hc : t.consumer wo = .node wi r) (hne : wo ≠ wi)
+    (hd : ((Teardown.run .discard t {} h).comp wo).w.done = true) :
+    ∃ sched : List Teardown.Step, (∀ st ∈ sched, st = .bwd wo ∨ st = .prim wo .pumpExit) ∧
+      sched.length ≤ ((Teardown.run .discard t {} h).comp wo).p.buf.length + 2 ∧
+      (Teardown.run .discard t (Teardown.run .discard t {} h) sched).reads wi r = [] :=
+  node_release t wo wi r hc hne _ _ ⟨h, hs, rfl⟩ hd (Nat.le_refl _)
+
+/-- Non-vacuity, and the end-to-end effect on a concrete path: a node between a source writer (0)
+and a sink, two requests in flight behind the node, the node's out-writer (1) alone is closed and
+its pump returns before the backward loop has received anything (both `dropped` responses are
+discarded).  The backward loop finds the channel closed, drops both, and the requester on writer
+0 – which was never closed – receives two `dropped` packets. -/
+theorem C03.teardown_releases_upstream_partial_nonvacuous :
+    let t : Topo := { consumer := fun w => if w = 1 then .node 0 0 else .requester,
+                      listener := fun w _ => if w = 0 then .node 1 else .sink 0 }
+    let h : List Teardown.Step := [.prim 0 (.w (.link 0)), .prim 1 (.w (.link 0)), .prim 0 (.w (.write 7)), .fwd 0 0,
+      .prim 0 (.w (.write 8)), .fwd 0 0, .down (.writerClose 1), .prim 1 .pumpExit]
+    ((Teardown.run .discard t {} h).comp 1).w.done = true ∧
+    ((Teardown.run .discard t {} h).comp 0).w.done = false ∧
+    ((Teardown.run .discard t {} h).reads 0 0).length = 2 ∧
+    ((Teardown.run .discard t {} (h ++ [.bwd 1, .prim 0 .recv, .prim 0 .recv])).comp 0).got
+      = [.got Resp.dropped, .got Resp.dropped] := by
+  decide
+
+/-- **… and what the upstream writer then still awaits.**  Same situation, for histories in which
+the wiring is consistent (`wi`'s reader `r` is listened to by the node whose out-writer is `wo`),
+and nobody but the node answers on the node's in-reader (`stepNoForeign`): throughout, while
+`r` is open, the number of answers `wi` awaits from `r` (`pend r`, the reader's FIFO of unanswered
+requests) equals the requests the node holds – handed to its reader and not yet taken, plus taken
+and not yet answered.  Hence after the `buffered + 2` steps of the node's goroutines `wi` awaits
+from `r` only the requests the forward loop has not taken yet (each of which it will answer at
+once: the closed out-writer accepts nothing, the request is echoed) – and `wi`'s machine is the
+image of a C01 specification state satisfying C01's invariant, in which the rows that owe `r` an
+answer are exactly those requests (`OweOK`).  So no request the node had taken keeps the
+requester of `wi` waiting.  `_partial`: the two hypotheses (wiring, no foreign answers). -/
+theorem C03.teardown_releases_upstream_awaits_partial (t : Topo) (h : List Teardown.Step) (hs : RunNoSteal h)
+    (wo wi : WId) (r : RId) (hc : t.consumer wo = .node wi r) (hl : t.listener wi r = .node wo) (hne : wo ≠ wi)
+    (hf : ∀ st ∈ h, stepNoForeign wi r st)
+    (hd : ((Teardown.run .discard t {} h).comp wo).w.done = true) :
+    ∃ sched : List Teardown.Step, (∀ st ∈ sched, st = .bwd wo ∨ st = .prim wo .pumpExit) ∧
+      sched.length ≤ ((Teardown.run .discard t {} h).comp wo).p.buf.length + 2 ∧
+      (Teardown.run .discard t (Teardown.run .discard t {} h) sched).reads wi r = [] ∧
+      (((Teardown.run .discard t (Teardown.run .discard t {} h) sched).comp wi).w.closed r = false →
+        (((Teardown.run .discard t (Teardown.run .discard t {} h) sched).comp wi).w.pend r).length =
+          ((Teardown.run .discard t (Teardown.run .discard t {} h) sched).inbox wi r).length) ∧
+      Backed ((Teardown.run .discard t (Teardown.run .discard t {} h) sched).comp wi) := by
+  obtain ⟨sched, h1, h2, h3⟩ := node_release t wo wi r hc hne _ _ ⟨h, hs, rfl⟩ hd (Nat.le_refl _)
+  have hf' : ∀ st ∈ h ++ sched, stepNoForeign wi r st := by
+    intro st hst
+    rcases List.mem_append.1 hst with hst | hst
+    · exact hf st hst
+    · rcases h1 st hst with rfl | rfl <;> trivial
+  have hu0 : Upstream ({} : Sys) wi r := by
+    unfold Upstream OwedEq; intro _; rfl
+  obtain ⟨hu, hb⟩ := upstream_run t wi r wo hl hne (h ++ sched) {} (fun _ => backed_init) hf' hu0
+  rw [run_append] at hu hb
+  refine ⟨sched, h1, h2, h3, ?_, hb wi⟩
+  intro hcl
+  have := hu hcl
+  rw [h3] at this
+  simpa using this
+
+/-- Non-vacuity: the history of `C03.teardown_releases_upstream_partial_nonvacuous` satisfies the
+hypotheses (the sink's answers are on writer 1's reader, not on the node's in-reader). -/
+theorem C03.teardown_releases_upstream_awaits_partial_nonvacuous :
+    let t : Topo := { consumer := fun w => if w = 1 then .node 0 0 else .requester,
+                      listener := fun w _ => if w = 0 then .node 1 else .sink 0 }
+    let h : List Teardown.Step := [.prim 0 (.w (.link 0)), .prim 1 (.w (.link 0)), .prim 0 (.w (.write 7)), .fwd 0 0,
+      .prim 1 (.w (.answer 0 (.val 70))), .bwd 1, .prim 0 (.w (.write 8)), .fwd 0 0, .prim 0 (.w (.write 9)),
+      .down (.writerClose 1), .prim 1 .pumpExit]
+    (∀ st ∈ h, stepNoForeign 0 0 st) ∧
+    ((Teardown.run .discard t {} h).comp 1).w.done = true ∧
+    (((Teardown.run .discard t {} h).comp 0).w.pend 0).length = 2 ∧
+    ((Teardown.run .discard t {} h).inbox 0 0).length = 1 ∧ ((Teardown.run .discard t {} h).reads 0 0).length = 1 := by
+  refine ⟨?_, by decide, by decide, by decide, by decide⟩
+  intro st hst
+  simp only [List.mem_cons, List.not_mem_nil, or_false] at hst
+  rcases hst with rfl | rfl | rfl | rfl | rfl | rfl | rfl | rfl | rfl | rfl | rfl <;> simp [stepNoForeign]
